@@ -125,6 +125,16 @@ func (c *Ctx) Begin() bool {
 	return true
 }
 
+// Stop ends the unit early (after a violation that makes further cases pointless or harmful, such as
+// a blocked call that leaks goroutines): later Begin calls return false and the unit is not exhaustive.
+func (c *Ctx) Stop(why string) {
+	if !c.expired {
+		c.expired = true
+		c.Res.Exhaustive = false
+		c.Res.Notes = append(c.Res.Notes, fmt.Sprintf("unit %s stopped early: %s", c.Unit, why))
+	}
+}
+
 // Expired reports whether the deadline has passed (checked by Begin).
 func (c *Ctx) Expired() bool { return c.expired }
 
@@ -213,6 +223,8 @@ type Unit struct {
 	Run  func(c *Ctx)
 	// Isolated units run with a hard memory limit and are expected to possibly crash.
 	Cost int // relative cost estimate for ordering (bigger first)
+	// Binary selects another build of the same program for this unit ("race" = built with -race, not instrumented)
+	Binary string
 }
 
 // Prop is a property check.
